@@ -2,18 +2,18 @@
 PROPERTY = "C23"
 META = {
     "category": "proof",
-    "technique": "contract-based deductive verification of the chunk-size arithmetic kernel (blockdims_from_blockshape element expression: div/mod + prefix sums), z3; bounded native runs of normalize_chunks / rechunk on the real code",
-    "text": "Kernel-level proof for all sizes: expanding an integer block size into explicit chunks yields positive chunks (or the single 0) that add up to the dimension and never exceed the requested size. normalize_chunks' type dispatch, auto_chunks' byte limit (floating point), _intersect_1d/plan_rechunk and the rechunk task graph are NOT proved: exhaustive/bounded native runs on the real code (labelled bounded).",
+    "technique": "contract-based deductive verification of the chunk-size arithmetic kernel (blockdims_from_blockshape element expression: div/mod + prefix sums) and of the target-spec normalisation at the top of rechunk (fragment; dict / tuple / list targets, None and omitted axes, negative axes, argument not modified in place), z3; bounded native runs of normalize_chunks / rechunk on the real code",
+    "text": "Kernel-level proof for all sizes: expanding an integer block size into explicit chunks yields positive chunks (or the single 0) that add up to the dimension and never exceed the requested size. rechunk: a dict target ends up with every axis present, a None or omitted axis keeps its current chunks and a given one is taken as given (negative axes normalised), a tuple/list target has its None entries replaced by the current chunks, any other target passes through, and the caller's dict/list object is never modified in place. normalize_chunks' type dispatch, auto_chunks' byte limit (floating point), _intersect_1d/plan_rechunk and the rechunk task graph are NOT proved: exhaustive/bounded native runs on the real code (labelled bounded).",
     "note": "Trusted: VC generator, z3, lemmas lemma_divmod/lemma_psum_const (proved by the same engine). Bounded only: normalize_chunks dispatch head, auto_chunks (floats), _intersect_1d/old_to_new, plan_rechunk/find_merge_rechunk (floats), NumPy getitem/concatenate graph of rechunk.",
     "design_ref": "DESIGN.md §5.9",
 }
-MODULES = ["contracts.lemmas", "contracts.chunks"]
+MODULES = ["contracts.lemmas", "contracts.chunks", "contracts.rechunkspec"]
 ONLY = {"contracts.lemmas": ["lemma_divmod", "lemma_psum_const"]}
 LEVEL = "proof"
 EXPLANATION = "kernel proof + bounded native runs (normalize_chunks over small shapes/specs/limits; rechunk over all pairs of 1-D chunkings and multi-stage 2-D plans)"
-TRUSTED = ["VC generator /verif/vf", "z3", "NumPy as value oracle in the bounded runs"]
+TRUSTED = ["VC generator /verif/vf", "z3", "ASSUMED contract of validate_axis", "NumPy as value oracle in the bounded runs"]
 ASSUMPTIONS = ["chunk sizes are ints"]
-NATIVE_COVERS = {"blockdims_from_blockshape": ["normalize_chunks"]}
+NATIVE_COVERS = {"blockdims_from_blockshape": ["normalize_chunks"], "rechunk[target spec]": ["rechunk"]}
 
 
 def native(tier, seed):
@@ -22,4 +22,6 @@ def native(tier, seed):
 
 
 # thorough tier: deliberate edits that must turn an obligation red (applied to a scratch copy, never to /repo)
-MUTATIONS = [('contracts.chunks', 'blockdims_from_blockshape', 'dask/array/core.py', '((bd,) * (d // bd) + ((d % bd,) if d % bd else ()) if d else (0,))', '((bd,) * (d // bd) + ((d % bd,) if d % bd else (0,)) if d else (0,))')]
+MUTATIONS = [('contracts.rechunkspec', 'rechunk[target spec]', 'dask/array/rechunk.py', '            elif chunks[i] is None:\n                chunks[i] = x.chunks[i]', '            elif chunks[i] is None and i > 0:\n                chunks[i] = x.chunks[i]'),
+             ('contracts.rechunkspec', 'rechunk[target spec]', 'dask/array/rechunk.py', '        chunks = {validate_axis(c, x.ndim): v for c, v in chunks.items()}', '        if any(c < 0 for c in chunks):\n            chunks = {validate_axis(c, x.ndim): v for c, v in chunks.items()}'),
+             ('contracts.chunks', 'blockdims_from_blockshape', 'dask/array/core.py', '((bd,) * (d // bd) + ((d % bd,) if d % bd else ()) if d else (0,))', '((bd,) * (d // bd) + ((d % bd,) if d % bd else (0,)) if d else (0,))')]
